@@ -12,9 +12,9 @@ var kindsA = []string{"set", "set", "setSame", "reorder", "reorderTo", "pop", "p
 var kindsB = []string{"addSafe", "addSafe", "addSafe", "addSafe", "addMax", "addMax", "pop", "pop", "removeSafe", "removeSafe", "removeEdge",
 	"set", "setSame", "reorder", "peek", "each", "clear", "drain", "update"}
 var kindsG = []string{"add", "add", "add", "add", "add", "addMax", "pop", "pop", "pop", "remove", "remove", "remove", "removeEdge",
-	"set", "setSame", "reorder", "reorderTo", "peek", "each", "clear", "drain", "update", "removeElem"}
+	"set", "setSame", "setRm", "reorder", "reorderTo", "peek", "each", "clear", "drain", "update", "removeElem"}
 var kindsPos = []string{"add", "add", "add", "add", "addMax", "pop", "pop", "remove", "removeElem", "removeElem", "removeElem", "removeEdge",
-	"set", "setSame", "reorder", "reorder", "reorderTo", "reorderTo", "peek", "clear", "update", "update"}
+	"set", "setSame", "setRm", "reorder", "reorder", "reorderTo", "reorderTo", "peek", "clear", "update", "update"}
 
 // genElemKind draws the element kind: half of the cases keep the harness's
 // own Elem (""), the rest are spread evenly over ElemKinds.
@@ -70,7 +70,10 @@ func genHOp(kinds []string) *rapid.Generator[HOp] {
 		switch op.Kind {
 		case "add", "addSafe":
 			op.A = genVal(t, "v")
-		case "set":
+		case "set", "setRm":
+			if op.Kind == "setRm" {
+				op.A = rapid.IntRange(0, 60).Draw(t, "rmAt")
+			}
 			n := rapid.OneOf(rapid.IntRange(0, 12), rapid.IntRange(0, 12), rapid.IntRange(0, 40), rapid.IntRange(0, 40),
 				rapid.SampledFrom([]int{63, 64, 65, 100, 128, 129, 200, 257})).Draw(t, "n")
 			op.Vs = genVec(t, "sv", n)
